@@ -129,5 +129,9 @@ theorem build_wf (env : Env) (hr : env.repaired = true) : ∀ (e : BufExpr) (k :
   | .withErrorHandler e, k => by
     obtain ⟨b, k', hb, w⟩ := build_wf env hr e k
     exact ⟨withErrorHandlerB b, k', by simp only [build, hb], withErrorHandlerB_wf _ b w⟩
+  | .replicate e side sib r, k => by
+    obtain ⟨b, k', hb, w⟩ := build_wf env hr e k
+    exact ⟨withTaskB k' r (cloneStreamB env sib b), k' + 1, by simp only [build, hb],
+      withTaskB_wf _ k' r _ (cloneStreamB_wf env hr _ sib b w)⟩
 
 end BB.Mux
